@@ -108,11 +108,16 @@ func (k *nameKeyInfo) keyID() []byte {
 // seal produces enc || ct for an inner plaintext, bound to requestKey; it also
 // returns the exported response secret.
 func (k *nameKeyInfo) seal(rnd io.Reader, requestKey, plaintext []byte) (encCt []byte, secret []byte, err error) {
+	return k.sealRaw(rnd, k.aad(requestKey, k.keyID()), plaintext)
+}
+
+// sealRaw seals with an explicit AAD.
+func (k *nameKeyInfo) sealRaw(rnd io.Reader, aad, plaintext []byte) (encCt []byte, secret []byte, err error) {
 	enc, ctx, err := hpke.SetupBaseS(k.suite, rnd, k.pk, []byte("TokenRequest"))
 	if err != nil {
 		return nil, nil, err
 	}
-	ct := ctx.Seal(k.aad(requestKey, k.keyID()), plaintext)
+	ct := ctx.Seal(aad, plaintext)
 	secret = ctx.Export([]byte("TokenResponse"), k.suite.AEAD.KeySize())
 	return append(append([]byte{}, enc...), ct...), secret, nil
 }
